@@ -748,7 +748,7 @@ def roundtrip_case(kind, vals, acc, detail=None):
                       "from_bits(as_bits()).as_bits() != as_bits()")
     # byte interface of the same PDU (CSBK, data header, full LC, UDP/IPv4): same bits, zero padded to octets
     bytes_bad = False
-    if hasattr(obj, "as_bytes") and hasattr(type(obj), "from_bytes"):
+    if bits2 == bits and hasattr(obj, "as_bytes") and hasattr(type(obj), "from_bytes"):  # (a lossy bit round trip is already reported)
         try:
             by = obj.as_bytes()
             padded = got + "0" * (-len(got) % 8)
